@@ -309,6 +309,14 @@ def run_shard(sh, ctx):
 				for k in range(max(sh['nconf'] // len(CONTAINERS), 4)):
 					threads = rng.choice([1, 2, 3, 4, 7, 8, 16, 16])
 					ctx.seen('thread_counts', threads)
+					if k % 5 == 2:
+						# a failing call (wrong output shape / dtype) in between: later calls must be unaffected
+						for badout in (np.zeros(len(rarrs) + 1, 'f4'), np.zeros(len(rarrs), 'f8')):
+							try:
+								gm.jaccarddist_array(qarrs[0], cobj, out=badout)
+								ctx.count('bad_out_accepted')
+							except ValueError:
+								ctx.count('failing_calls_interleaved')
 					run_config(ctx, gm, rng, coll, cont_kind, cobj, rarrs, qarrs, E, threads, sh['reps'], tag)
 					if threads > 1:
 						tids = set(get_thread_ids(64))
